@@ -21,4 +21,5 @@ def check(ctx, prog):
     optimize.rule_reset(ctx, prog)
     process.rule_marker_parent(ctx, prog)
     engine.rule_wakeup(ctx, prog)
+    propagators.rule_enforce_entail(ctx, prog)
     engine.rule_queue_writers(ctx, prog, thorough=thorough)
